@@ -96,7 +96,7 @@ def run(ck, prog, tier, load):
         ck.ob("C05-c.decode-needs-queue-room", "poll_request", ok1, pr, bb, "requests are decoded only after messages.len() < MAX_PIPELINED_MESSAGES was established", witness=pr.path_lines(w1))
         ck.ob("C05-c.decode-needs-can-read", "poll_request", ok2, pr, bb, "input is decoded (and body chunks fed) only after can_read(cx) returned true", witness=pr.path_lines(w2))
     pushes = [(b, bb, t) for (b, bb, t, m) in method_calls_on_field(prog, MSG, ["actix_http"]) if m in ("push_back", "push_front", "insert", "extend", "append")]
-    ck.anchor("C05-c", len(pushes), 4, "pushes onto InnerDispatcher.messages")
+    ck.anchor("C05-c", len(pushes), 2, "pushes onto InnerDispatcher.messages")
     for b, bb, t in pushes:
         ck.ob("C05-c.push-site", "%s|%s" % (b.npath.split("::")[-1], cname(t).split("::")[-1]), b is pr, b, bb, "messages.%s in %s (only poll_request may enqueue)" % (cname(t).split("::")[-1], b.npath.split("::")[-1]), nontrivial=False)
     cr = disp(prog, "can_read")
